@@ -179,8 +179,8 @@ func TestC12List(t *testing.T) {
 				}
 				t.Fatalf("%s", evid.Sig(sig, "listing reports %+v, blocks in range sum to %+v\n  %s", got, want, ctx))
 			}
-			// the command itself: `goQuery list <iface>` (cmd/goQuery/cmd/list.go) with JSON output, for every fourth range
-			if rapid.IntRange(0, 3).Draw(t, fmt.Sprintf("r%d.cli", r)) == 0 {
+			// the command itself: `goQuery list <iface>` (cmd/goQuery/cmd/list.go) with JSON output, for every fourth range (thorough: every eighth)
+			if rapid.IntRange(0, evid.Pick(3, 7)).Draw(t, fmt.Sprintf("r%d.cli", r)) == 0 {
 				cmd := exec.Command(execpool.Bin("goquery"), "-d", dir, "-e", "json", "-f", fmt.Sprint(first), "-l", fmt.Sprint(last), "list", ifc)
 				cmd.Env = append(os.Environ(), "TZ="+tz)
 				var stdout, stderr bytes.Buffer
